@@ -258,7 +258,7 @@ void try_deliver(Conn& c, int side) // move due segments from flight into side's
       if (hadData && !c.dead[1 - side] && !c.dead[side])
       {
         c.dead[side] = true;
-        push_ev(g_now + lat(), 3, c.id, 1 - side);
+        push_ev(std::max(c.last_at[1 - side], g_now + lat()), 3, c.id, 1 - side);
       }
       continue;
     }
@@ -321,12 +321,14 @@ void send_rst(Conn& c, int from)
 {
   if (c.dead[from] && c.dead[1 - from]) return;
   c.dead[from] = true;
-  // everything still in flight in either direction is lost
-  push_ev(g_now + lat(), 3, c.id, 1 - from);
+  // The reset travels behind whatever this side had already transmitted (same path, in order): segments in flight towards the
+  // other side arrive first, as far as its receive window takes them; the rest of both directions is lost when it arrives.
+  push_ev(std::max(c.last_at[1 - from], g_now + lat()), 3, c.id, 1 - from);
 }
 void rst_arrive(Conn& c, int side)
 {
   if (c.dead[side]) return;
+  if (c.open[side]) try_deliver(c, side); // data transmitted before the reset is still readable (Linux keeps the receive queue)
   c.dead[side] = true;
   if (c.open[side])
   {
